@@ -275,9 +275,21 @@ class _Probe(HasTraits):
     s = Set(Int)
     i = Instance(c03.A, ())
     n = Any()
+    bad = Int()                                      # dynamic default that fails validation
+    e = __import__("traits.api", fromlist=["Expression"]).Expression()      # stores the ORIGINAL value; default fails validation
+    e_ok = __import__("traits.api", fromlist=["Expression"]).Expression()   # ... and one that passes
 
     def _n_default(self):
         return [1, 2]
+
+    def _bad_default(self):
+        return "not an int %d" % id(self)            # a fresh object every time
+
+    def _e_default(self):
+        return "1 + (%d" % id(self)
+
+    def _e_ok_default(self):
+        return "1 + %d" % id(self)
 
     def _a_changed(self, old, new):
         pass
@@ -287,7 +299,8 @@ def access_harness(which):
     """first read (getattr_trait + default_value_for for each default kind) and assignment (setattr_trait) on a real object"""
     def harness(ex):
         o = _Probe()
-        name = ["a", "f", "l", "d", "s", "i", "n"][ex.choice("attr", 7)]
+        names = ["a", "f", "l", "d", "s", "i", "n"] + (["bad", "e", "e_ok"] if which == "read" else [])
+        name = names[ex.choice("attr", len(names))]
         it = cenv.new_interp()
         os_ = cenv.hastraits_struct(it, o)
         ct = o.trait(name)
@@ -299,6 +312,8 @@ def access_harness(which):
             with cenv.python_side_env():
                 if which == "read":
                     r = it.call(t.getattr, [ct, os_, name])
+                    if r is NULL and it.st.err is None:
+                        problem = "NULL returned without an exception set"
                 else:
                     val = {"a": 5, "f": 2.5, "l": [1], "d": {"k": 1}, "s": {1}, "i": c03.A(), "n": "v"}[name]
                     if ex.flag("invalid"):
@@ -415,6 +430,11 @@ class _Tgt(HasTraits):
     x = Int(1)
 
 
+class _Cyc(HasTraits):
+    other = Instance(HasTraits)
+    v = __import__("traits.api", fromlist=["DelegatesTo"]).DelegatesTo("other")
+
+
 class _Del(HasTraits):
     t = Instance(_Tgt)
     x = __import__("traits.api", fromlist=["DelegatesTo"]).DelegatesTo("t")
@@ -430,11 +450,36 @@ def trait_lookup_harness(ex):
     """_has_traits_trait (what HasTraits._trait / trait() / base_trait() call) for every `instance` mode, incl. delegate
     resolution with a missing / None / non-HasTraits delegate; and trait_property_changed"""
     o = _Del()
-    state = ex.choice("delegate", 3)       # 0: a proper delegate, 1: None, 2: a delegate that lacks the attribute
+    state = ex.choice("delegate", 4)       # 0: a proper delegate, 1: None, 2: a delegate that lacks the attribute, 3: a cycle
     if state == 0:
         o.t = _Tgt()
     name = ["x", "broken", "plain", "undeclared"][ex.choice("name", 4)]
     which = ex.choice("function", 2)
+    if state == 3:
+        if which != 0:
+            return {"name": "skip"}
+        o, b = _Cyc(), _Cyc()
+        # following 'v' never ends: the look-up gives up after 100 levels.  (Stored behind the back of the compiled
+        # code, so that the first look-up through the cycle is the interpreted one.)
+        o.__dict__["other"], b.__dict__["other"] = b, o
+        name = "v"
+    raising = which == 1 and ex.flag("handler_raises")
+    if raising:
+        from traits.api import push_exception_handler
+        push_exception_handler(lambda *a: None, reraise_exceptions=True)
+    try:
+        return _trait_lookup_body(ex, o, name, which, raising)
+    finally:
+        if raising:
+            from traits.api import pop_exception_handler
+            pop_exception_handler()
+
+
+def _raiser():
+    raise RuntimeError("handler failed")
+
+
+def _trait_lookup_body(ex, o, name, which, raising):
     it = cenv.new_interp()
     os_ = cenv.hastraits_struct(it, o)
     it.st.rc.clear()
@@ -451,7 +496,7 @@ def trait_lookup_harness(ex):
                 if r is NULL and it.st.err is None:
                     problem = "NULL without an exception"
             else:
-                o.on_trait_change(lambda: None, "prop")
+                o.on_trait_change(_raiser if raising else (lambda: None), "prop")
                 os_ = cenv.hastraits_struct(it, o)
                 it.st.rc.clear()
                 rc = it.call("trait_property_changed", [os_, "prop" if name != "undeclared" else "undeclared", 1,
@@ -582,6 +627,8 @@ def obligations(tier, build):
                           bounds={"handlers": 3, "mutation": "self-removal / removal of the next / addition, during dispatch"},
                           leverage="choice feasibility only"))
     obs.append(Obligation("access/trait-lookup", trait_lookup_harness, stubs=STUBS, witness_every=0,
+                          crash_is_violation="errors surface as Python exceptions, never as crashes (the fixture set-up runs the compiled "
+                                             "look-up natively)",
                           bounds={"instance mode": "symbolic Int in [-3, 3]", "delegate": "proper / None / attribute missing"},
                           leverage="the instance mode; otherwise choice feasibility"))
     obs.append(Obligation("access/property", property_harness, stubs=STUBS, witness_every=0,
